@@ -141,6 +141,7 @@ TAB_DESC = {
     "T16": "T16 paired scalar constants mutually consistent",
     "T17": "T17 MAX_EDGE_LENGTH_RADS[r] >= average edge length, decreasing",
     "T18": "T18 pole-cell tables hold valid cells of the right resolution",
+    "T19": "T19 cwOffsetPent = the faces on which the pentagon's wedge has the deleted K wedge as clockwise neighbour (from faceIjkBaseCells)",
 }
 
 
@@ -219,6 +220,17 @@ def part_sib(ctx):
                         "the convention of the writer bboxesFromGeoPolygon (sibling cross-check). ")
 
 
+def part_bitprov(which):
+    def run(ctx):
+        from . import rules_bitprov
+        m = module("release", "ssa")
+        n0 = len([o for o in ctx.obligations if o["rule"] == "R-BITPROV"])
+        getattr(rules_bitprov, "check_" + which)(ctx, m, "release", ctx.tier)
+        ctx.explanation += rules_bitprov.TEXT[which] + " "
+        ctx.floor("R-BITPROV", "bit-exact instances (%s)" % which, len([o for o in ctx.obligations if o["rule"] == "R-BITPROV"]) - n0 + len([b for b in ctx.brokens if b["rule"] == "R-BITPROV"]), rules_bitprov.FLOOR[which])
+    return run
+
+
 def part_fmt(ctx):
     from . import rules_fmt
     n = rules_fmt.check(ctx, module("release", "ssa"), "release")
@@ -237,11 +249,11 @@ def part_ret(ctx):
 
 
 PARTS = {
-    "C01": [part_guards("C01"), part_tables(["T7"], {"T7": ["isBaseCellPentagonArr"]}), part_cform("C01"), part_wit("C01")],
-    "C02": [part_guards("C02"), part_tables(["T6", "T16"]), part_wit("C02")],
-    "C03": [part_guards("C03"), part_tables(["T7", "T4", "T5", "T9"], {"T7": ["pentagonCount", "res0CellCount", "getRes0Cells", "getPentagons", "baseCellNeighbors:rows", "baseCellNeighbor60CCWRots:rows"]}), part_cform("C03"), part_wit("C03")],
+    "C01": [part_guards("C01"), part_bitprov("validity"), part_tables(["T7"], {"T7": ["isBaseCellPentagonArr"]}), part_cform("C01"), part_wit("C01")],
+    "C02": [part_guards("C02"), part_tables(["T6", "T16", "T19"]), part_wit("C02")],
+    "C03": [part_guards("C03"), part_tables(["T7", "T4", "T5", "T9", "T19"], {"T7": ["pentagonCount", "res0CellCount", "getRes0Cells", "getPentagons", "baseCellNeighbors:rows", "baseCellNeighbor60CCWRots:rows"]}), part_cform("C03"), part_wit("C03")],
     "C04": [part_guards("C04"), part_cform("C04"), part_tables(["T7"], {"T7": ["isBaseCellPentagonArr"]}), part_wit("C04")],
-    "C05": [part_guards("C05"), part_tables(["T1", "T2", "T3", "T10", "T11", "T7"], {"T7": ["baseCellNeighbors", "baseCellNeighbor60CCWRots"]}), part_cform("C05"), part_wit("C05")],
+    "C05": [part_guards("C05"), part_tables(["T1", "T2", "T3", "T10", "T11", "T7", "T19"], {"T7": ["baseCellNeighbors", "baseCellNeighbor60CCWRots"]}), part_cform("C05"), part_wit("C05")],
     "C06": [part_guards("C06"), part_bw("C06")],
     "C08": [part_tables(["T5", "T9", "T13"]), part_cform("C08"), part_wit("C08")],
     "C09": [part_guards("C09"), part_tables(["T1", "T2", "T3", "T10", "T14"]), part_ovf, part_wit("C09")],
